@@ -227,6 +227,13 @@ func (f *Frame) callFunc(fn *ssa.Function, args [][]*Term, bindings [][]*Term, i
 	// contract?
 	con := f.u.W.contractFor(fn)
 	forceInline := f.inl[funcKey(fn)] || f.inl[cn]
+	if con != nil && con.Kind == "model" {
+		// the callee is represented by an executable model written in a spec block (assumed faithful)
+		f.u.Trusted["model program stands for "+con.Target+": "+con.StubName] = true
+		fn = f.u.W.stubs[con]
+		con = nil
+		bindings = nil
+	}
 	if con != nil && !forceInline && !f.spec {
 		return f.callByContract(fn, con, args, bindings, in, rt, anchor)
 	}
@@ -235,7 +242,7 @@ func (f *Frame) callFunc(fn *ssa.Function, args [][]*Term, bindings [][]*Term, i
 		sub := &Frame{u: f.u, fn: fn, vals: map[ssa.Value][]*Term{}, spec: f.spec, depth: f.depth + 1,
 			anchor: f.anchorFor(anchor), freeVars: bindings, frame: f.frame, inl: f.inl}
 		if f.stub != nil {
-			sub.stub = &stubEval{old: f.stub.old, oldLoads: map[ssa.Instruction]bool{}, oldCalls: map[ssa.Instruction]bool{}}
+			sub.stub = &stubEval{old: f.stub.old, startCtr: f.stub.startCtr, oldLoads: map[ssa.Instruction]bool{}, oldCalls: map[ssa.Instruction]bool{}}
 		}
 		for i, p := range fn.Params {
 			sub.set(p, args[i])
@@ -385,6 +392,17 @@ func (f *Frame) builtin(b *ssa.Builtin, c *ssa.CallCommon, in ssa.Instruction) [
 				key := s.Key()
 				val := f.u.mc.Sel(pre.m[key], src[0], tb.Add(src[1], tb.BV(64, k)))
 				f.cur.mem.m[key] = f.u.mc.Store(f.cur.mem.m[key], dst[0], tb.Add(dst[1], tb.BV(64, k)), val)
+			}
+		} else if dn, ok := dst[2].ConstInt64(); ok && dn*es <= 64 && !srcIsStr && es == 1 {
+			// destination of constant length, source length symbolic: slot k is written iff k < len(src)
+			pre := f.cur.mem
+			s := L.Slots(et)[0]
+			key := s.Key()
+			for k := int64(0); k < dn; k++ {
+				in := tb.Ult(tb.BV(64, k), src[2])
+				val := f.u.mc.Sel(pre.m[key], src[0], tb.Add(src[1], tb.BV(64, k)))
+				old := f.u.mc.Sel(pre.m[key], dst[0], tb.Add(dst[1], tb.BV(64, k)))
+				f.cur.mem.m[key] = f.u.mc.Store(f.cur.mem.m[key], dst[0], tb.Add(dst[1], tb.BV(64, k)), tb.Ite(in, val, old))
 			}
 		} else {
 			for _, s := range L.ElemSorts(et) {
@@ -573,6 +591,10 @@ func (f *Frame) intrinsic(name string, fn *ssa.Function, args [][]*Term, in ssa.
 		var cs []*Term
 		for _, r := range f.variadicArgs(in) {
 			cs = append(cs, tb.Not(tb.Ult(r.obj, f.freshLimit())))
+			if f.stub != nil && f.stub.caller != nil && f.stub.newMem == nil {
+				// assumed at a call site: the callee's allocations live in the id band reserved for it
+				cs = append(cs, tb.Ult(r.obj, tb.Add(f.freshLimit(), tb.BV(32, 1<<16))))
+			}
 		}
 		return []*Term{tb.And(cs...)}, true
 	case "verifDisjoint":
@@ -582,6 +604,19 @@ func (f *Frame) intrinsic(name string, fn *ssa.Function, args [][]*Term, in ssa.
 		}
 		a, b := rs[0], rs[1]
 		return []*Term{tb.Or(tb.Not(tb.Eq(a.obj, b.obj)), tb.Ule(a.hi, b.lo), tb.Ule(b.hi, a.lo))}, true
+	case "verifSeparate":
+		// the two pointers / slices refer to different allocations
+		rs := f.variadicPair(in)
+		if len(rs) != 2 {
+			return []*Term{tb.True()}, true
+		}
+		return []*Term{tb.Not(tb.Eq(rs[0].obj, rs[1].obj))}, true
+	case "verifSameSlice":
+		rs := f.variadicPair(in)
+		if len(rs) != 2 {
+			return []*Term{tb.False()}, true
+		}
+		return []*Term{tb.And(tb.Eq(rs[0].obj, rs[1].obj), tb.Eq(rs[0].lo, rs[1].lo))}, true
 	case "verifUnchanged":
 		// the listed regions have the same content in the old and the current memory (needs a quantifier per region)
 		var cs []*Term
@@ -746,14 +781,27 @@ func (f *Frame) quantifier(forall bool, args [][]*Term, in ssa.Instruction) *Ter
 	default:
 		panic(unsupported("quantifier body must be a function literal"))
 	}
+	// constant bounds with few instances: expand (keeps offsets syntactically comparable)
+	if lo, ok1 := args[0][0].ConstInt64(); ok1 {
+		if hi, ok2 := args[1][0].ConstInt64(); ok2 && hi-lo <= 64 {
+			var parts []*Term
+			for k := lo; k < hi; k++ {
+				parts = append(parts, f.quantInstance(ci, tb.BV(64, k), in))
+			}
+			if forall {
+				return tb.And(parts...)
+			}
+			return tb.Or(parts...)
+		}
+	}
 	f.u.nsym++
 	bv := tb.BVar(fmt.Sprintf("q!%d", f.u.nsym), BV64)
 	sub := &Frame{u: f.u, fn: ci.fn, vals: map[ssa.Value][]*Term{}, spec: true, depth: f.depth + 1, freeVars: ci.bindings, inl: f.inl}
 	if f.stub != nil {
-		sub.stub = &stubEval{old: f.stub.old, oldLoads: markOld(ci.fn), oldCalls: map[ssa.Instruction]bool{}}
+		sub.stub = &stubEval{old: f.stub.old, startCtr: f.stub.startCtr, oldLoads: markOld(ci.fn), oldCalls: map[ssa.Instruction]bool{}}
 		sub.stub.oldCalls = markOldCalls(ci.fn, sub.stub.oldLoads)
 	} else {
-		sub.stub = &stubEval{old: f.u.M0, oldLoads: markOld(ci.fn), oldCalls: map[ssa.Instruction]bool{}}
+		sub.stub = &stubEval{old: f.u.M0, startCtr: 1<<40, oldLoads: markOld(ci.fn), oldCalls: map[ssa.Instruction]bool{}}
 		sub.stub.oldCalls = markOldCalls(ci.fn, sub.stub.oldLoads)
 	}
 	sub.set(ci.fn.Params[0], []*Term{bv})
@@ -768,6 +816,25 @@ func (f *Frame) quantifier(forall bool, args [][]*Term, in ssa.Instruction) *Ter
 		return tb.Forall([]*Term{bv}, tb.Implies(rng, body))
 	}
 	return tb.Exists([]*Term{bv}, tb.And(rng, body))
+}
+
+// quantInstance evaluates the body of a quantifier closure for one index term.
+func (f *Frame) quantInstance(ci *closureInfo, idx *Term, in ssa.Instruction) *Term {
+	tb := f.tb()
+	sub := &Frame{u: f.u, fn: ci.fn, vals: map[ssa.Value][]*Term{}, spec: true, depth: f.depth + 1, freeVars: ci.bindings, inl: f.inl}
+	if f.stub != nil {
+		sub.stub = &stubEval{old: f.stub.old, startCtr: f.stub.startCtr, oldLoads: markOld(ci.fn), oldCalls: map[ssa.Instruction]bool{}}
+	} else {
+		sub.stub = &stubEval{old: f.u.M0, startCtr: 1 << 40, oldLoads: markOld(ci.fn), oldCalls: map[ssa.Instruction]bool{}}
+	}
+	sub.stub.oldCalls = markOldCalls(ci.fn, sub.stub.oldLoads)
+	sub.set(ci.fn.Params[0], []*Term{idx})
+	entry := BState{reach: tb.True(), mem: f.cur.mem}
+	if f.stub != nil && f.stub.oldCalls[in] {
+		entry.mem = f.stub.old
+	}
+	res, _ := sub.run(entry)
+	return res[0]
 }
 
 // markOld computes the loads of fn whose value flows only into verifOld(...).
@@ -887,6 +954,9 @@ func (f *Frame) callByContract(fn *ssa.Function, con *Contract, args [][]*Term, 
 		vals = append(vals, f.loadFrom(f.cur.mem, et, bindings[i][0], bindings[i][1]))
 	}
 	limit := tb.BVU(32, uint64(freshBase+u.objCtr+1))
+	// objects allocated by the callee live in the id band [limit, limit+2^16); everything the
+	// caller (and the contract stub) allocates afterwards comes after it
+	u.objCtr += 1 << 16
 	pre := f.cur.mem
 	st := f.evalStub(con, vals, pre, nil, limit, nil)
 	for i, r := range st.requires {
@@ -904,8 +974,6 @@ func (f *Frame) callByContract(fn *ssa.Function, con *Contract, args [][]*Term, 
 			f.cur.reach = save
 		}
 	}
-	// objects allocated by the callee live above the current counter
-	u.objCtr += 1 << 16
 	if st.posted {
 		f.cur.mem = st.afterHavoc
 	}
@@ -978,6 +1046,7 @@ func (f *Frame) invokeByContract(con *Contract, c *ssa.CallCommon, iv []*Term, a
 	vals := append([][]*Term{iv}, args...)
 	vals = append(vals, resVals...)
 	limit := tb.BVU(32, uint64(freshBase+u.objCtr+1))
+	u.objCtr += 1 << 16
 	f.callCount["invoke:"+con.Target]++
 	anchor := fmt.Sprintf("%s[%d]", con.Target, f.callCount["invoke:"+con.Target])
 	st := f.evalStub(con, vals, f.cur.mem, nil, limit, nil)
@@ -992,7 +1061,6 @@ func (f *Frame) invokeByContract(con *Contract, c *ssa.CallCommon, iv []*Term, a
 			f.cur.reach = save
 		}
 	}
-	u.objCtr += 1 << 16
 	if st.posted {
 		f.cur.mem = st.afterHavoc
 	}
